@@ -292,6 +292,49 @@ Fixpoint sys_trace (ops : list sop) (y : sys) (c : client) (since : seqid) : lis
 
 Definition trace (ops : list sop) : list pullobs := sys_trace ops sys_init [] (mk 0 0 0).
 
+(* ---------- the same system serving a NAMED collection ----------
+   Everything is as above, except the re-creation of a soft-deleted role: the constructor the admin path uses
+   (auth.NewRoleNoChannels, like NewRole) carries over only the DEFAULT collection's channel history of the deleted role
+   document; the history kept under collection_access.<scope>.<collection> is dropped (finding
+   recreated-role-history-lost/named-collection).  No theorem is claimed for this variant; it is the faithful model the
+   named-collection histories of the harness are compared with, and C13_Refuted.v evaluates the defect on it. *)
+(* the switch: true = the code before /repo commit 3cadf88; false = the repaired constructors (every collection's history
+   carried over), for which the named-collection variant coincides with the model above *)
+Definition named_recreate_drops_history : bool := false.
+
+Definition drop_role_hist (r : N) (g : gstate) : gstate :=
+  mkG (g_user g) (g_uroles g) (role_upd r (fun '(p, del) => (mkPrinc (p_set p) (p_inval p) [], del)) (g_roles g)).
+
+Definition sys_step_named_gen (drops : bool) (y : sys) (o : sop) : sys :=
+  match o with
+  | SRChans r _ =>
+      match role_get r (g_roles (y_g y)) with
+      | Some (_, true) =>
+          let y' := sys_step y o in
+          if drops then with_g y' (drop_role_hist r (y_g y')) else y'
+      | _ => sys_step y o
+      end
+  | _ => sys_step y o
+  end.
+
+Fixpoint sys_trace_named_gen (drops : bool) (ops : list sop) (y : sys) (c : client) (since : seqid) : list pullobs :=
+  match ops with
+  | [] => []
+  | SPull limit :: rest =>
+      let y1 := sys_step y (SPull limit) in
+      let snap := snapshot_of y1 in
+      let rows := pull snap since limit in
+      let c1 := apply_rows c rows in
+      mkObs snap rows c1 (caught_up limit rows) (sys_visible y1) :: sys_trace_named_gen drops rest y1 c1 (next_since since rows)
+  | o :: rest => sys_trace_named_gen drops rest (sys_step_named_gen drops y o) c since
+  end.
+
+Definition trace_named_gen (drops : bool) (ops : list sop) : list pullobs := sys_trace_named_gen drops ops sys_init [] (mk 0 0 0).
+(* the code as it is now (constructors repaired by 3cadf88) *)
+Definition trace_named (ops : list sop) : list pullobs := trace_named_gen named_recreate_drops_history ops.
+(* the code before the repair: kept for the witness in C13_Refuted.v *)
+Definition trace_named_old (ops : list sop) : list pullobs := trace_named_gen true ops.
+
 Definition same_docs (c : client) (vis : list N) : bool :=
   forallb (fun '(d, _) => mem d vis) c && forallb (fun d => holds c d) vis.
 
